@@ -499,6 +499,8 @@ class Executor:
         if text in self.c.get("self_state", {}):
             return st.env[self.c["self_state"][text][0]]          # attribute of self that the function may assign: a symbol of the state
         base = self.ev(node.value, st, spec)
+        if isinstance(base, (IntV, OptV)) and node.attr in self.c.get("identity_attrs", ()):
+            return base                      # e.g. Var.value: the wrapped integer itself
         if isinstance(base, ObjV) and node.attr in base.fields:
             return base.fields[node.attr]
         if isinstance(base, ObjV) and not (isinstance(node.value, ast.Name) and node.value.id not in st.env):
@@ -707,6 +709,8 @@ class Executor:
         self.define(st, out.n == a.n + b.n)
         self.define(st, z3.ForAll([j], z3.Implies(z3.And(0 <= j, j < a.n), out.arr[j] == a.arr[j]), patterns=[out.arr[j]]))
         self.define(st, z3.ForAll([j], z3.Implies(z3.And(0 <= j, j < b.n), out.arr[a.n + j] == b.arr[j]), patterns=[b.arr[j]]))
+        # the same fact keyed on the result (needed when only out[i] occurs in a goal)
+        self.define(st, z3.ForAll([j], z3.Implies(z3.And(a.n <= j, j < a.n + b.n), out.arr[j] == b.arr[j - a.n]), patterns=[out.arr[j]]))
         return out
 
     def repeat(self, lst: ListV, k, st):
@@ -731,6 +735,9 @@ class Executor:
             if name == "cast" and len(node.args) == 2:
                 self.dropped.add("typing.cast")
                 return self.ev(node.args[1], st, spec)
+            if name in self.c.get("identity_calls", ()) and len(node.args) == 1 and not node.keywords:
+                self.dropped.add("wrapper constructors " + "/".join(sorted(self.c["identity_calls"])) + " (a wrapped value is modelled by the value)")
+                return self.ev(node.args[0], st, spec)
             if name == "len":
                 v = self.ev(node.args[0], st, spec)
                 if isinstance(v, ListV):
@@ -841,7 +848,18 @@ class Executor:
         for r in callee.get("ensures", []):
             fact = self.truth(self.ev(_parse(r), sub, True), sub)
             st.pc.append(fact)
-        self.run_ghost(callee.get("ghost_after", []), st)                # effect of the call on the caller's ghost state
+        if callee.get("ghost_after"):                                    # effect of the call on the caller's ghost state; the
+            saved = {}                                                   # callee's arguments / result are visible as arg_<name> / call_result
+            for pn in list(callee["params"]) + ["result"]:
+                key = "call_result" if pn == "result" else "arg_" + pn
+                saved[key] = st.env.get(key)
+                st.env[key] = sub.env[pn]
+            self.run_ghost(callee["ghost_after"], st)
+            for key, v in saved.items():
+                if v is None:
+                    st.env.pop(key, None)
+                else:
+                    st.env[key] = v
         return res
 
     # ---- specification vocabulary ---------------------------------------------------------------
@@ -1385,6 +1403,14 @@ class Executor:
         if len(node.generators) != 1 or node.generators[0].is_async:
             raise OutOfSubset("nested comprehension")
         g = node.generators[0]
+        # [x for x in xs] (also through identity wrappers such as Clause(x)): a copy of xs — lists are values here
+        elt0 = node.elt
+        while isinstance(elt0, ast.Call) and isinstance(elt0.func, ast.Name) and elt0.func.id in self.c.get("identity_calls", ()) and len(elt0.args) == 1:
+            elt0 = elt0.args[0]
+        if isinstance(elt0, ast.Name) and isinstance(g.target, ast.Name) and elt0.id == g.target.id and not g.ifs and isinstance(g.iter, ast.Name):
+            src = st.env.get(g.iter.id)
+            if isinstance(src, ListV):
+                return src
         cnt, el = self.iter_desc(g.iter, st)
         if len(g.ifs) > 1:
             raise OutOfSubset("comprehension with several ifs")
@@ -1452,6 +1478,16 @@ class Executor:
                 sig, val = "return", NoneV()
             if sig == "return":
                 sx.env["result"] = val
+                for hn, hint in enumerate(c.get("post_hints", [])):          # intermediate lemmas at the return point: proved in order, then assumed
+                    try:
+                        hg = self.truth(self.ev(_parse(hint), sx, True), sx)
+                    except OutOfSubset as e:
+                        if "unknown name in specification" in str(e):
+                            continue
+                        raise
+                    self.vc(sx, "hint", f"post.hint#{hn}", hg, hint)
+                    sx.pc.append(hg)
+                    self._keep.append(hg)
                 for n, e in enumerate(c.get("ensures", [])):
                     g = self.truth(self.ev(_parse(e), sx, True), sx)
                     self.vc(sx, "post", f"post#{n}", g, e)
@@ -1531,7 +1567,14 @@ def _collect_apps(expr, decl, acc, bound_depth=0):
             _collect_apps(ch, decl, acc)
 
 
-def spec_axioms(formulas, depth=2, ranges=False):
+def _sel(T, i):
+    """T[i] with the lambda applied (beta-reduced), so that lemma instances mention the summand's own terms"""
+    if z3.is_quantifier(T) and T.is_lambda() and T.num_vars() == 1:
+        return z3.substitute_vars(T.body(), i)
+    return z3.Select(T, i)
+
+
+def spec_axioms(formulas, depth=2, ranges=False, binary=False):
     """Ground instances of the defining equations of Sum and pow2 for the terms occurring in `formulas`.
     Sum(T, n) = 0 for n <= 0, Sum(T, n) = Sum(T, n-1) + T[n-1] for n > 0;  congruence for pairs of Sum terms;
     pow2(t) = 1 for t <= 0, pow2(t) = 2*pow2(t-1) for t > 0."""
@@ -1549,7 +1592,7 @@ def spec_axioms(formulas, depth=2, ranges=False):
                 continue
             seen_s[i] = app
             T, n = app.arg(0), app.arg(1)
-            ax = z3.And(z3.Implies(n <= 0, app == 0), z3.Implies(n > 0, app == SumF(T, n - 1) + z3.Select(T, n - 1)))
+            ax = z3.And(z3.Implies(n <= 0, app == 0), z3.Implies(n > 0, app == SumF(T, n - 1) + _sel(T, n - 1)))
             out.append(ax)
             new.append(ax)
         for i, app in accp.items():
@@ -1578,15 +1621,38 @@ def spec_axioms(formulas, depth=2, ranges=False):
                 continue
             i = fresh("ri", z3.IntSort())
             rng = z3.And(lo <= i, i < hi)
-            out.append(z3.Implies(z3.And(lo <= hi, z3.ForAll([i], z3.Implies(rng, z3.Select(T, i) >= 0))), a <= b))
-            out.append(z3.Implies(z3.And(lo <= hi, z3.ForAll([i], z3.Implies(rng, z3.Select(T, i) <= 1))), b - a <= hi - lo))
-            out.append(z3.Implies(z3.And(lo <= hi, z3.ForAll([i], z3.Implies(rng, z3.Select(T, i) == 0))), a == b))
+            out.append(z3.Implies(z3.And(lo <= hi, z3.ForAll([i], z3.Implies(rng, _sel(T, i) >= 0))), a <= b))
+            out.append(z3.Implies(z3.And(lo <= hi, z3.ForAll([i], z3.Implies(rng, _sel(T, i) <= 1))), b - a <= hi - lo))
+            out.append(z3.Implies(z3.And(lo <= hi, z3.ForAll([i], z3.Implies(rng, _sel(T, i) == 0))), a == b))
+    if binary:
+        tq = fresh("pt", z3.IntSort())
+        out.append(z3.ForAll([tq], Pow2(tq) >= 1, patterns=[Pow2(tq)]))          # pow2 is positive (from its definition: 1 below 0, doubling above)
+        # weighted-bit sums: every summand T[i] is 0 or pow2(i).  bound: 0 <= Sum(T,n) < pow2(n);  uniqueness: equal sums of equal length have equal summands
+        isbit = lambda T, i: z3.Or(_sel(T, i) == 0, _sel(T, i) == Pow2(i))
+        for a in apps:
+            T, n = a.arg(0), a.arg(1)
+            i = fresh("bi", z3.IntSort())
+            out.append(z3.Implies(z3.And(n >= 0, z3.ForAll([i], z3.Implies(z3.And(0 <= i, i < n), isbit(T, i)))), z3.And(0 <= a, a < Pow2(n))))
+        for a, b in itertools.combinations(apps, 2):
+            if a.arg(0).eq(b.arg(0)):
+                continue
+            i, j = fresh("bi", z3.IntSort()), fresh("bj", z3.IntSort())
+            n = a.arg(1)
+            out.append(z3.Implies(z3.And(n == b.arg(1), n >= 0, a == b,
+                                         z3.ForAll([i], z3.Implies(z3.And(0 <= i, i < n), isbit(a.arg(0), i))),
+                                         z3.ForAll([i], z3.Implies(z3.And(0 <= i, i < n), isbit(b.arg(0), i)))),
+                                  z3.And(z3.ForAll([j], z3.Implies(z3.And(0 <= j, j < n), _sel(a.arg(0), j) == _sel(b.arg(0), j))),
+                                         z3.ForAll([j], z3.Implies(z3.And(0 <= j, j < n), _sel(b.arg(0), j) == _sel(a.arg(0), j))))))
+        pows = list(seen_p.values())
+        for a, b in itertools.permutations(pows, 2):
+            out.append(z3.Implies(a.arg(0) <= b.arg(0), a <= b))
+            out.append(z3.Implies(z3.And(a.arg(0) < b.arg(0), b.arg(0) > 0), 2 * a <= b))
     for a, b in itertools.combinations(apps, 2):
         if a.arg(0).eq(b.arg(0)):
             continue
         i = fresh("ci", z3.IntSort())
         out.append(z3.Implies(z3.And(a.arg(1) == b.arg(1),
-                                     z3.ForAll([i], z3.Implies(z3.And(0 <= i, i < a.arg(1)), z3.Select(a.arg(0), i) == z3.Select(b.arg(0), i)))),
+                                     z3.ForAll([i], z3.Implies(z3.And(0 <= i, i < a.arg(1)), _sel(a.arg(0), i) == _sel(b.arg(0), i)))),
                               a == b))
     return out
 
@@ -1613,6 +1679,33 @@ def check_sum_lemmas(ms=10_000):
         s_ = prove([hi > lo, defs(T1, hi), defs(T1, hi - 1), defs(T1, lo), z3.Implies(allc(hi - 1), rel(SumF(T1, lo), SumF(T1, hi - 1), lo, hi - 1)), allc(hi)],
                    rel(SumF(T1, lo), SumF(T1, hi), lo, hi), ms)
         out += [(f"lemma.sum_{nm}.base", b_), (f"lemma.sum_{nm}.step", s_)]
+    # reindexing a finite universal statement from the other end (used where a contract enumerates "all units hold" from the last to the first)
+    Pq = z3.Function("lemmaP", z3.IntSort(), z3.BoolSort())
+    jq = z3.Int("jq")
+    out.append(("lemma.reindex", prove([z3.ForAll([jq], z3.Implies(z3.And(0 <= jq, jq < n), Pq(n - 1 - jq)))],
+                                       z3.ForAll([i], z3.Implies(z3.And(0 <= i, i < n), Pq(i))), ms)))
+    out.append(("lemma.reindex.converse", prove([z3.ForAll([i], z3.Implies(z3.And(0 <= i, i < n), Pq(i)))],
+                                                z3.ForAll([jq], z3.Implies(z3.And(0 <= jq, jq < n), Pq(n - 1 - jq))), ms)))
+    # pow2: definition instances, then monotonicity by induction on the distance d: pow2(a) <= pow2(a+d) and (d >= 1 -> 2 pow2(a) <= pow2(a+d))
+    a_, d = z3.Ints("a d")
+    pdef = lambda t: z3.And(Pow2(t) >= 1, z3.Implies(t <= 0, Pow2(t) == 1), z3.Implies(t > 0, Pow2(t) == 2 * Pow2(t - 1)))
+    mono = lambda dd: z3.And(Pow2(a_) <= Pow2(a_ + dd), z3.Implies(z3.And(dd >= 1, a_ + dd > 0), 2 * Pow2(a_) <= Pow2(a_ + dd)))
+    out.append(("lemma.pow2_mono.base", prove([d == 0, pdef(a_)], mono(d), ms)))
+    out.append(("lemma.pow2_mono.step", prove([d > 0, pdef(a_), pdef(a_ + d), pdef(a_ + d - 1), pdef(a_ + 1), mono(d - 1),
+                                               # for a + d <= 0 both are 1; the step needs pow2 at a+d from a+d-1
+                                               z3.Implies(a_ + d <= 0, z3.And(Pow2(a_ + d) == 1, Pow2(a_) == 1))], mono(d), ms)))
+    # binary bound: n >= 0 and all summands bits -> 0 <= Sum(T,n) < pow2(n)   (induction on n)
+    isbit = lambda T, k: z3.Or(T[k] == 0, T[k] == Pow2(k))
+    allbits = lambda T, m: z3.ForAll([i], z3.Implies(z3.And(0 <= i, i < m), isbit(T, i)))
+    bound = lambda T, m: z3.And(0 <= SumF(T, m), SumF(T, m) < Pow2(m))
+    out.append(("lemma.binary_bound.base", prove([n == 0, defs(T1, n), pdef(n)], bound(T1, n), ms)))
+    out.append(("lemma.binary_bound.step", prove([n > 0, defs(T1, n), pdef(n), pdef(n - 1), z3.Implies(allbits(T1, n - 1), bound(T1, n - 1)), allbits(T1, n)], bound(T1, n), ms)))
+    # binary uniqueness (induction on n, uses the bound at n-1)
+    agree_all = lambda m: z3.ForAll([i], z3.Implies(z3.And(0 <= i, i < m), T1[i] == T2[i]))
+    uniq = lambda m: z3.Implies(z3.And(allbits(T1, m), allbits(T2, m), SumF(T1, m) == SumF(T2, m)), agree_all(m))
+    out.append(("lemma.binary_unique.base", prove([n == 0], uniq(n), ms)))
+    out.append(("lemma.binary_unique.step", prove([n > 0, defs(T1, n), defs(T2, n), pdef(n - 1), uniq(n - 1),
+                                                   z3.Implies(allbits(T1, n - 1), bound(T1, n - 1)), z3.Implies(allbits(T2, n - 1), bound(T2, n - 1))], uniq(n), ms)))
     return out
 
 
@@ -1669,7 +1762,8 @@ def verify(contract: dict, all_contracts: dict | None = None, ms: int = 10_000, 
     for vc in vcs:
         hyps = vc.hyps
         rg = "sum_ranges" in contract.get("lemmas", ())
-        ax = spec_axioms(hyps + [vc.goal], ranges=rg)
+        bn = "binary" in contract.get("lemmas", ())
+        ax = spec_axioms(hyps + [vc.goal], ranges=rg, binary=bn)
         if vc.kind == "reach":
             verdict, m, dt, be = prove(hyps + ax, vc.goal, min(ms, 2000))
         else:
@@ -1677,7 +1771,13 @@ def verify(contract: dict, all_contracts: dict | None = None, ms: int = 10_000, 
             lean = [h for h in hyps if h.get_id() not in ex.hint_ids]
             verdict, m, dt, be = ("undecided", None, 0.0, "z3")
             if len(lean) != len(hyps):
-                verdict, m, dt, be = prove(lean + spec_axioms(lean + [vc.goal], ranges=rg), vc.goal, min(ms, 1500), use_cvc5=False)
+                verdict, m, dt, be = prove(lean + spec_axioms(lean + [vc.goal], ranges=rg, binary=bn), vc.goal, min(ms, 1500), use_cvc5=False)
+            # attempt with E-matching only (quantifier-heavy goals that are closed by pattern instances come back in milliseconds)
+            if verdict not in ("proved", "refuted"):
+                v0, _m0, dt0, be0 = prove(hyps + ax, vc.goal, min(ms // 3, 4000), use_cvc5=False, ematch_only=True)
+                dt += dt0
+                if v0 == "proved":
+                    verdict, m, be = v0, None, be0
             # portfolio: the nonlinear / quantified queries are seed-sensitive in z3; three short attempts then cvc5
             for k, sd in enumerate((7, 1, 3)):
                 if verdict in ("proved", "refuted"):
@@ -1697,6 +1797,7 @@ def verify_plain(arg):
     """picklable wrapper for worker processes: (contract name, ms) -> plain dict (no z3 objects)"""
     name, ms = arg
     from contracts.wpc import W
+    ms = max(ms, W[name].get("ms", 0))          # a contract may ask for a larger per-obligation budget (quantifier-heavy proofs; undecided is never a verdict)
     r = verify(W[name], W, ms)
     return dict(name=name, error=r["error"], dropped=r["dropped"], sha=r.get("sha"), file=r.get("file"), secs=r.get("secs"), partial_loops=r.get("partial_loops", []),
                 vcs=[dict(oid=v.oid, kind=v.kind, status=v.status, secs=v.secs, backend=v.backend, note=v.note, path=v.path,
